@@ -88,6 +88,9 @@ MUTANTS = [
     Edit("activator: occupancy updated after creation", "jellyfysh/activator/tag_activator.py",
          "        for internal_state in self._internal_states:\n            internal_state.update(extracted_active_global_state)\n", "", "R9.4"),
 ]
+MUTANTS.append(Edit("update: non-empty surplus list deleted", OC,
+                    "                if not self._surplus.get(self._active_cell, True):\n                    del self._surplus[self._active_cell]",
+                    "                if self._surplus.get(self._active_cell):\n                    del self._surplus[self._active_cell]", "R11.1"))
 TWINS = [
     Edit("update: old cell saved in a local first", OC,
          r"(        if new_active_unit\.identifier != self\._active_unit_identifier:\n)",
